@@ -17,7 +17,7 @@ import (
 
 const rule = "case = (1-4 files, each 0-4 YAML documents (with and without a leading ---, with a leading comment block, later files that begin with a comment, empty files); a document-local expression (typed core expression, update, or the provenance probe); eval | eval-all; -N on/off), run through the real binary. " +
 	"oracle: (1) the JSON value stream of the whole run equals the concatenation, in file and document order, of what the same expression yields on a file holding just that document; (2) `[di, fi, filename]` equals the generator's bookkeeping (document position in its file, file position counting empty files, the path as given); (3) for `.` the YAML output, read by an independent reader, has as many documents as the input, equal to them in order; (4) on single-document input eval and eval-all print the same for expressions whose traversals are total. " +
-	"non-trivial = >= 2 documents in total; distinct by (files, expression, flags)"
+	"non-trivial = >= 2 documents in total; distinct by (files, expression, flags) Sub formats: 2-4 files of one input format (YAML with 1-3 documents and header comments on the first document of a file, JSON, properties, TOML, Lua, XML, CSV, TSV) printed as JSON / XML / properties / Lua / YAML; oracle: the bytes of the whole run are the bytes of the runs over each document alone, one after the other (joined by `---` for YAML output), and `di, fi, filename, length` equal the bookkeeping in both modes; the decoder's internal separator marker never appears in any output."
 
 func TestMain(m *testing.M) {
 	hx.Main(m, "C10", rule,
